@@ -337,6 +337,8 @@ CASES = {
                 sub(KD, "time.sleep(0.2)", "time.sleep(self.POLL_INTERVAL)")]),
             ("poll body as guard clause", [tree_edit(KD, poll_guard_form)]),
             ("timeout switch mirrored", [sub(KD, "if timeout == -1:", "if -1 == timeout:")]),
+            ("timeout switch compared with the float -1.0", [
+                sub(KD, "if timeout == -1:", "if timeout == -1.0:")]),
         ],
         "real": [
             ("threshold 60", [sub(KD, "INSTRUCTION_THRESHOLD = 50", "INSTRUCTION_THRESHOLD = 60")]),
@@ -480,10 +482,16 @@ CASES = {
                     "            if lazy:\n                pass\n            else:\n                MachineModel._runtime_cache[self._path] = self._data")]),
             ("lazy guard as conjunction with short-circuit", [
                 sub(HW, "cached = self._get_cached(self._path) if not lazy else False", "cached = not lazy and self._get_cached(self._path)")]),
-            ("DATA_DIRS as tuple with constants folded, CACHE_DIR concatenated", [
+            ("DATA_DIRS / CACHE_DIR with concatenated constants", [
                 sub(UT, 'DATA_DIRS = [\n    os.path.expanduser("~/.osaca/data"),\n    os.path.join(os.path.dirname(__file__), "data"),\n]',
-                    '_USER = "~/.osaca"\nDATA_DIRS = (\n    os.path.expanduser(_USER + "/data"),\n    os.path.join(os.path.dirname(__file__), "da" "ta"),\n)'),
+                    '_USER = "~/.osaca"\nDATA_DIRS = [\n    os.path.expanduser(_USER + "/data"),\n    os.path.join(os.path.dirname(__file__), "da" "ta"),\n]'),
                 sub(UT, 'CACHE_DIR = os.path.expanduser("~/.osaca/cache")', 'CACHE_DIR = os.path.expanduser("%s/cache" % _USER)')]),
+            ("sha256 imported by name, home path as Path(D, name), suffix from a class constant", [
+                sub(HW, "import hashlib\n", "import hashlib\nfrom hashlib import sha256\n"),
+                sub(HW, "hashlib.sha256(p.read_bytes())", "sha256(p.read_bytes())", count=2),
+                sub(HW, "    INTERNAL_VERSION = 1  #", "    CACHE_SUFFIX = \".pickle\"\n    INTERNAL_VERSION = 1  #"),
+                fn_sub(HW, "_get_cached", HOME_R, 'home_cachefile = Path(utils.CACHE_DIR, p.stem + "_" + hexhash).with_suffix(self.CACHE_SUFFIX)'),
+                fn_sub(HW, "_write_in_cache", COMP, 'companion_cachefile = p.with_name("." + p.stem + "_" + hexhash).with_suffix(MachineModel.CACHE_SUFFIX)')]),
             ("pickle functions imported by name", [
                 sub(HW, "import pickle\n", "import pickle\nfrom pickle import load as _unpickle, dump\n"),
                 sub(HW, "data = pickle.load(f)", "data = pickle.loads(f.read())"),
@@ -528,6 +536,209 @@ CASES = {
         ],
     },
 }
+
+
+# --------------------------------------------------------------------------- whole-file rewrites (all plug-ins)
+def NOT(x):
+    return ast.UnaryOp(op=ast.Not(), operand=x)
+
+
+class Respell(ast.NodeTransformer):
+    """every literal respelt: s -> "" + s, n -> n + 0, x -> x * 1"""
+    def visit_JoinedStr(self, n):
+        return n
+
+    def visit_Expr(self, n):
+        if isinstance(n.value, ast.Constant) and isinstance(n.value.value, str):
+            return n   # docstring
+        return self.generic_visit(n)
+
+    def visit_Constant(self, n):
+        v = n.value
+        if isinstance(v, bool) or v is None:
+            return n
+        if isinstance(v, str):
+            return ast.BinOp(left=ast.Constant(value=""), op=ast.Add(), right=n)
+        if isinstance(v, int):
+            return ast.BinOp(left=n, op=ast.Add(), right=ast.Constant(value=0))
+        if isinstance(v, float):
+            return ast.BinOp(left=n, op=ast.Mult(), right=ast.Constant(value=1))
+        return n
+
+
+class RenameLocals(ast.NodeTransformer):
+    """every non-parameter local of every function renamed (suffix _q)"""
+    def visit_FunctionDef(self, f):
+        a = f.args
+        params = {x.arg for x in a.posonlyargs + a.args + a.kwonlyargs + [y for y in (a.vararg, a.kwarg) if y]}
+        stores = {n.id for n in ast.walk(f) if isinstance(n, ast.Name) and isinstance(n.ctx, ast.Store)} - params
+        stores -= {nm for n in ast.walk(f) if isinstance(n, (ast.Global, ast.Nonlocal)) for nm in n.names}
+        for n in ast.walk(f):
+            if isinstance(n, ast.Name) and n.id in stores:
+                n.id = n.id + "_q"
+        return f
+
+
+class Hoist(ast.NodeTransformer):
+    """every int / float / str literal inside a function body replaced by a module-level constant _K<i>"""
+    def __init__(self):
+        self.consts, self.depth = [], 0
+
+    def visit_JoinedStr(self, n):
+        return n
+
+    def visit_FunctionDef(self, f):
+        self.depth += 1
+        f.body = [self.visit(s) for s in f.body]
+        self.depth -= 1
+        return f
+
+    def visit_Expr(self, n):
+        if isinstance(n.value, ast.Constant) and isinstance(n.value.value, str):
+            return n
+        return self.generic_visit(n)
+
+    def visit_Constant(self, n):
+        v = n.value
+        if self.depth == 0 or isinstance(v, bool) or not isinstance(v, (int, float, str)):
+            return n
+        self.consts.append(v)
+        return ast.Name(id="_K%d" % (len(self.consts) - 1), ctx=ast.Load())
+
+
+def hoist(t):
+    h = Hoist()
+    t = h.visit(t)
+    k = max([i for i, s in enumerate(t.body) if isinstance(s, (ast.Import, ast.ImportFrom))] + [0]) + 1
+    t.body[k:k] = [ast.Assign(targets=[ast.Name(id="_K%d" % i, ctx=ast.Store())], value=ast.Constant(value=v))
+                   for i, v in enumerate(h.consts)]
+    return t
+
+
+_MIR = {ast.Lt: ast.Gt, ast.Gt: ast.Lt, ast.LtE: ast.GtE, ast.GtE: ast.LtE, ast.Eq: ast.Eq, ast.NotEq: ast.NotEq}
+
+
+class Mirror(ast.NodeTransformer):
+    """a < b -> b > a, a == b -> b == a, ..."""
+    def visit_Compare(self, n):
+        self.generic_visit(n)
+        if len(n.ops) == 1 and type(n.ops[0]) in _MIR:
+            return ast.Compare(left=n.comparators[0], ops=[_MIR[type(n.ops[0])]()], comparators=[n.left])
+        return n
+
+
+class SwapIf(ast.NodeTransformer):
+    """if c: A else: B -> if not c: B else: A (not for elif chains);  x if c else y -> y if not c else x"""
+    def visit_If(self, n):
+        self.generic_visit(n)
+        if n.orelse and not (len(n.orelse) == 1 and isinstance(n.orelse[0], ast.If)):
+            return ast.If(test=NOT(n.test), body=n.orelse, orelse=n.body)
+        return n
+
+    def visit_IfExp(self, n):
+        self.generic_visit(n)
+        return ast.IfExp(test=NOT(n.test), body=n.orelse, orelse=n.body)
+
+
+class DeMorgan(ast.NodeTransformer):
+    """in every test: a and b -> not (not a or not b), a or b -> not (not a and not b)"""
+    def fix(self, t):
+        if isinstance(t, ast.BoolOp):
+            other = ast.Or() if isinstance(t.op, ast.And) else ast.And()
+            return NOT(ast.BoolOp(op=other, values=[NOT(self.fix(v)) for v in t.values]))
+        return t
+
+    def visit_If(self, n):
+        self.generic_visit(n)
+        n.test = self.fix(n.test)
+        return n
+
+    visit_While = visit_IfExp = visit_If
+
+    def visit_comprehension(self, n):
+        self.generic_visit(n)
+        n.ifs = [self.fix(t) for t in n.ifs]
+        return n
+
+
+class ClassConst(ast.NodeTransformer):
+    """self.CONST -> ClassName.CONST for the upper-case class attributes"""
+    def visit_ClassDef(self, c):
+        consts = {t.id for s in c.body if isinstance(s, ast.Assign) for t in s.targets
+                  if isinstance(t, ast.Name) and t.id.isupper()}
+        for n in ast.walk(c):
+            if isinstance(n, ast.Attribute) and isinstance(n.value, ast.Name) and n.value.id == "self" \
+                    and n.attr in consts and isinstance(n.ctx, ast.Load):
+                n.value.id = c.name
+        return c
+
+
+def _always_exits(stmts):
+    if not stmts:
+        return False
+    last = stmts[-1]
+    if isinstance(last, (ast.Return, ast.Raise, ast.Continue, ast.Break)):
+        return True
+    return isinstance(last, ast.If) and bool(last.orelse) and _always_exits(last.body) and _always_exits(last.orelse)
+
+
+class UnElse(ast.NodeTransformer):
+    """if c: A(always exits) else: B  ->  if c: A  followed by B"""
+    def block(self, stmts):
+        out = []
+        for s in stmts:
+            s = self.visit(s)
+            if isinstance(s, ast.If) and s.orelse and _always_exits(s.body):
+                rest, s.orelse = s.orelse, []
+                out.append(s)
+                out.extend(rest)
+            else:
+                out.append(s)
+        return out
+
+    def generic_visit(self, node):
+        for f in ("body", "orelse", "finalbody"):
+            b = getattr(node, f, None)
+            if isinstance(b, list) and b and isinstance(b[0], ast.stmt):
+                setattr(node, f, self.block(b))
+        if isinstance(node, ast.Try):
+            for h in node.handlers:
+                h.body = self.block(h.body)
+        return node
+
+
+GENERIC = [
+    ("ast.unparse round trip (quotes, parentheses, comments, layout)", lambda t: t),
+    ("every literal respelt (\"\" + s, n + 0, x * 1)", lambda t: Respell().visit(t)),
+    ("every local of every function renamed", lambda t: RenameLocals().visit(t)),
+    ("every literal of every function hoisted to a module constant", hoist),
+    ("every comparison mirrored", lambda t: Mirror().visit(t)),
+    ("every if/else and conditional expression with swapped arms", lambda t: SwapIf().visit(t)),
+    ("De Morgan on every test", lambda t: DeMorgan().visit(t)),
+    ("self.CONST -> Class.CONST", lambda t: ClassConst().visit(t)),
+    ("else after an exiting branch -> guard clause", lambda t: UnElse().visit(t)),
+]
+
+
+def generic_test(plugins, base_dir, base, tmp, failures):
+    for name, tr in GENERIC:
+        d = os.path.join(tmp, "generic")
+        shutil.copytree(base_dir, d)
+        for rel in FILES:
+            p = os.path.join(d, rel)
+            t = tr(ast.parse(open(p).read()))
+            open(p, "w").write(ast.unparse(ast.fix_missing_locations(t)) + "\n")
+            ast.parse(open(p).read())
+        for g, fn in plugins.items():
+            st, out = run(fn, d)
+            good = st == "ok" and out == base[g]
+            if VERBOSE or not good:
+                print("%-4s %-13s %-8s whole files: %s" % ("ok" if good else "FAIL", g, "harmless", name))
+            if not good:
+                print("       " + ("plug-in failed: " + out if st != "ok" else "output differs:\n" + diff(base[g], out)).replace("\n", "\n       "))
+                failures.append("%s/generic/%s" % (g, name))
+        shutil.rmtree(d)
+    return len(GENERIC)
 
 
 def check_floats():
@@ -586,9 +797,10 @@ def mutation_test():
                         print("       " + why.replace("\n", "\n       "))
                         failures.append("%s/%s/%s" % (g, kind, name))
                     shutil.rmtree(d)
-        counts = {g: (len(k["harmless"]), len(k["real"])) for g, k in CASES.items()}
-        print("mutation test: %d cases (%s): %s" % (
-            n, ", ".join("%s %dh/%dr" % (g, a, b) for g, (a, b) in counts.items()),
+        ng = generic_test(plugins, base_dir, base, tmp, failures)
+        counts = {g: (len(k["harmless"]) + ng, len(k["real"])) for g, k in CASES.items()}
+        print("mutation test: %d specific cases + %d whole-file rewrites x 4 plug-ins (%s): %s" % (
+            n, ng, ", ".join("%s %dh/%dr" % (g, a, b) for g, (a, b) in counts.items()),
             "all pass" if not failures else "%d FAILED" % len(failures)))
     finally:
         shutil.rmtree(tmp, ignore_errors=True)
